@@ -71,6 +71,10 @@ var Schemas = map[string]string{
         }
         leaf q2 { type string; }
       }
+      case r {
+        leaf r1 { type string; }
+        choice late { leaf r2 { type string; } leaf r3 { type string; } }
+      }
     }
   }
   list e { key k; leaf k { type string; }
